@@ -17,7 +17,16 @@ Called from extract.py (`gen_tx`).  Extracted from /repo/src (comments stripped)
   * `Gen.execSelectIgnored`  `process_command_parts` passes the literal connection id 0 and
                          `handle_exec` has no SELECT handling of its own;
   * `Gen.blockingInExecUnguarded`  `handle_blpop` / `handle_brpop` register the client without
-                         testing for the dummy connection id 0 first.
+                         testing for the dummy connection id 0 first (true as soon as ONE of them does);
+  * `Gen.execNotifiesWaiters`  the LPUSH/RPUSH arms of `process_normal_command` notify the blocking
+                         manager even when `conn_id == 0` (inside EXEC), or `handle_exec` does not serve
+                         the pushed keys after its loop;
+  * `Gen.txUnrecognised`  what could NOT be read off the source.  Every fact is extracted on its own; a
+                         shape that is not recognised yields the PESSIMISTIC value (the deviation is assumed)
+                         and an entry here, never a definition that does not elaborate: the model and the
+                         driver always build, the TCP run goes ahead with the prescribed behaviour as the
+                         oracle, and the table theorem `source_shapes_recognised` (Props/C07.lean) refuses
+                         a non-empty list.
 """
 import os
 import re
@@ -87,7 +96,7 @@ def facts(src, strip_comments, fn_body, repo=None):
                  and "self.process_connections()" in run
                  and re.search(r"for\s+id\s+in\s+conn_ids\s*\{", pcs) is not None
                  and "self.process_connection(id)" in pcs
-                 and re.search(r"for\s+frame\s+in\s+frames_to_process\s*\{", pc) is not None
+                 and re.search(r"for\s+frame\s+in\s+frames_to_process\s*\{|while\s+let\s+Some\(frame\)\s*=\s*frames\.next\(\)\s*\{", pc) is not None
                  and "self.process_frame(frame, id)" in pc
                  and re.search(r"for\s+\w+\s+in\s+commands_to_execute", he) is not None
                  and "self.process_command_parts(" in he
@@ -118,12 +127,25 @@ def facts(src, strip_comments, fn_body, repo=None):
             own = bool(re.search(r'SELECT|handle_select', he))
             out["select_ignored"] = (m.group(1) == "0") and not own
     out["blocking_unguarded"] = None
+    out["blocking_guards"] = None
     bl, br = fn_body(sv, "handle_blpop"), fn_body(sv, "handle_brpop")
     if bl is not None and br is not None and "register_blocked(" in bl and "register_blocked(" in br:
         def guarded(b):
             return re.search(r"conn_id\s*==\s*0", b[:b.index("register_blocked(")]) is not None
         g = (guarded(bl), guarded(br))
-        out["blocking_unguarded"] = (not g[0]) if g[0] == g[1] else None
+        out["blocking_guards"] = g
+        out["blocking_unguarded"] = not (g[0] and g[1])
+    # ---- pushes run by EXEC must not wake anybody; handle_exec serves the pushed keys after its loop
+    out["exec_notifies"] = None
+    pn = fn_body(sv, "process_normal_command")
+    if pn is not None and he is not None:
+        arms = re.findall(r'"(?:LPUSH|RPUSH)"\s*=>\s*\{(.*?)\bresult\s*\}', pn, re.S)
+        if len(arms) == 2 and all("notify_key_ready" in a for a in arms):
+            quiet = all(re.search(r"if\s+conn_id\s*==\s*0\s*\|\|[^{]*\{\s*break;", a) for a in arms)
+            loop_end = he.rfind("commands_to_execute")
+            serves_after = re.search(r"for\s*\(\s*db\s*,\s*key\s*\)\s+in\s+pushed_keys\s*\{\s*self\.serve_key\(", he[loop_end:]) is not None \
+                and "notify_key_ready" not in he and "process_wakeups" not in he
+            out["exec_notifies"] = not (quiet and serves_after)
     return out
 
 
@@ -135,33 +157,45 @@ def generate(src, strip_comments, fn_body, header, repo=None):
     f = facts(src, strip_comments, fn_body, repo)
     b = lambda v: "true" if v else "false"
     L = [header, "namespace Ferrous.Gen", ""]
+    unknown = []
 
-    def item(doc, name, ty, val, failed):
+    def item(doc, name, ty, val, pessimistic, failed):
         if val is None:
-            L.append('def %s : %s := extraction_failed "%s"' % (name, ty, failed))
-        else:
-            L.append("/-- %s -/" % doc)
-            L.append("def %s : %s := %s" % (name, ty, val))
+            unknown.append(failed)
+            doc = "NOT RECOGNISED (%s): pessimistic value. " % failed + doc
+            val = pessimistic
+        L.append("/-- %s -/" % doc)
+        L.append("def %s : %s := %s" % (name, ty, val))
 
+    ALL_PRE = ["MONITOR", "MULTI", "EXEC", "DISCARD", "WATCH", "UNWATCH", "PUBLISH", "SUBSCRIBE", "UNSUBSCRIBE", "PSUBSCRIBE", "PUNSUBSCRIBE", "AUTH", "REPLCONF"]
     item("names special-cased in `Server::process_frame` before the queue test, in source order (auth gate skipped)",
-         "preQueue", "List String", None if f["pre_queue"] is None else lean_str_list(f["pre_queue"]),
+         "preQueue", "List String", None if f["pre_queue"] is None else lean_str_list(f["pre_queue"]), lean_str_list(ALL_PRE),
          "arms before `if in_transaction && should_queue_command` not recognised in process_frame")
     item("names `transactions::should_queue_command` refuses to queue",
-         "txPassThrough", "List String", None if f["pass_through"] is None else lean_str_list(f["pass_through"]),
+         "txPassThrough", "List String", None if f["pass_through"] is None else lean_str_list(f["pass_through"]), "[]",
          "should_queue_command is no longer `!matches!(command, ..)`")
-    item("`Server::run` loops over `process_connections` → `process_connection(id)` → `process_frame(frame, id)`; `handle_exec` runs "
-         "its queue in a `for` loop through `process_command_parts`; no thread spawn / channel / async hand-off in any of them",
-         "execIsSynchronous", "Bool", None if f["sync"] is None else b(f["sync"]),
+    item("`Server::run` loops over `process_connections` -> `process_connection(id)` -> `process_frame(frame, id)`, one frame after another; `handle_exec` "
+         "runs its queue in a `for` loop through `process_command_parts`; no thread spawn / channel / async hand-off in any of them",
+         "execIsSynchronous", "Bool", None if f["sync"] is None else b(f["sync"]), "false",
          "Server::run / process_connections / process_connection / handle_exec / process_command_parts not found")
-    item("assignments `aborted = true` in /repo/src", "abortedSetSites", "Nat", str(f["aborted_sites"]), "")
+    if f["sync"] is False:
+        unknown.append("single-thread structure of Server::run / process_connection / handle_exec not recognised (or a hand-off appeared)")
+    item("assignments `aborted = true` in /repo/src", "abortedSetSites", "Nat", str(f["aborted_sites"]), "1", "")
     item("`queue_command` validates the command (anything besides push_back + QUEUED)",
-         "queueCommandValidates", "Bool", None if f["queue_validates"] is None else b(f["queue_validates"]),
+         "queueCommandValidates", "Bool", None if f["queue_validates"] is None else b(f["queue_validates"]), "true",
          "queue_command not recognised")
     item("`process_command_parts` runs queued commands under the literal connection id 0 and `handle_exec` does not treat SELECT itself",
-         "execSelectIgnored", "Bool", None if f["select_ignored"] is None else b(f["select_ignored"]),
+         "execSelectIgnored", "Bool", None if f["select_ignored"] is None else b(f["select_ignored"]), "true",
          "process_command_parts no longer calls process_normal_command(parts, db, <id>)")
-    item("`handle_blpop`/`handle_brpop` reach `register_blocked` without a `conn_id == 0` test",
-         "blockingInExecUnguarded", "Bool", None if f["blocking_unguarded"] is None else b(f["blocking_unguarded"]),
-         "handle_blpop / handle_brpop not recognised (or they disagree)")
+    item("`handle_blpop` or `handle_brpop` reaches `register_blocked` without a `conn_id == 0` test",
+         "blockingInExecUnguarded", "Bool", None if f["blocking_unguarded"] is None else b(f["blocking_unguarded"]), "true",
+         "handle_blpop / handle_brpop not recognised")
+    if f.get("blocking_guards") is not None and f["blocking_guards"][0] != f["blocking_guards"][1]:
+        unknown.append("handle_blpop and handle_brpop disagree about the `conn_id == 0` test before register_blocked (%s / %s)" % f["blocking_guards"])
+    item("pushes run by EXEC notify blocked clients (the LPUSH/RPUSH arms do not stop at `conn_id == 0`, or handle_exec does not serve the pushed keys after its loop)",
+         "execNotifiesWaiters", "Bool", None if f["exec_notifies"] is None else b(f["exec_notifies"]), "true",
+         "LPUSH/RPUSH arms of process_normal_command or the tail of handle_exec not recognised")
+    L.append("/-- what translator/tx_facts.py could not read off the source (pessimistic values above) -/")
+    L.append("def txUnrecognised : List String := [%s]" % ", ".join('"%s"' % u.replace("\\", "/").replace('"', "'") for u in unknown))
     L += ["", "end Ferrous.Gen", ""]
     return "\n".join(L)
